@@ -11,6 +11,7 @@ import OAuth2Model.Driver.Dbg
 import OAuth2Model.Driver.Tok
 import OAuth2Model.Driver.Err
 import OAuth2Model.Driver.Adapter
+import OAuth2Model.Driver.Cfg
 
 def dispatch (line : String) : String :=
   match (line.trimAscii.toString.splitOn " ").filter (· ≠ "") with
@@ -33,6 +34,7 @@ def dispatch (line : String) : String :=
     | "tok" => Drv.TokOp.run args
     | "err" => Drv.ErrOp.run args
     | "adp" => Drv.AdapterOp.run args
+    | "cfg" => Drv.CfgOp.run args
     | _ => "bad-op"
 
 partial def loop (h : IO.FS.Stream) (out : IO.FS.Stream) : IO Unit := do
